@@ -83,6 +83,7 @@ def plan(tier, seed):
         cfgs += [sd.reconf_config(rng) for _ in range(40)]
         cfgs += [sd.pool_pressure_config(rng) for _ in range(40)]
         cfgs += [sd.seq_hold_config(rng) for _ in range(16)]
+        cfgs += [sd.setup_roots_config(rng) for _ in range(24)]
         opts = {"max_runs": 120}
     else:
         cfgs = sd.small_configs(2, (1, 2), rng, sample=None, prios=True)
@@ -94,6 +95,7 @@ def plan(tier, seed):
         cfgs += [sd.reconf_config(rng) for _ in range(500)]
         cfgs += [sd.pool_pressure_config(rng) for _ in range(500)]
         cfgs += [sd.seq_hold_config(rng) for _ in range(120)]
+        cfgs += [sd.setup_roots_config(rng) for _ in range(200)]
         opts = {"max_runs": 400}
     return cfgs, opts
 
